@@ -10,4 +10,13 @@ func init() {
 		Bounds:   "params (maxkb, pre-emption budget); schedules = run-to-block plus up to `pre` pre-emptions inserted before unbuffered channel sends and mutex acquisitions (context-bounded); 3 goroutines + enforcer",
 		Assumes:  []string{"threads are atomic between visible operations (channel ops, mutex/waitgroup ops, go, Yield): data races below that granularity are not detected (no race detector)", "native replay of a schedule counterexample is by repetition (400 rounds); a counterexample that does not reproduce is reported as broken, not as a violation"},
 	})
+	register(Harness{
+		Prop: "C09", Pkg: "storage/mem", Func: "VerifC09CapSize",
+		Quick:    [][]int64{{1}, {2}},
+		Thorough: [][]int64{{3}},
+		Unwind:   40,
+		Desc:     "mailbox cap 1 and maxkb 1 together; a delivery that cap-evicts from mailbox a races with a delivery to b that pushes the store over the size limit while the store's oldest message is in a: both deliveries return, no panic, no deadlock, cap and size limit hold afterwards, store usable",
+		Bounds:   "param (pre-emption budget); schedules = run-to-block plus up to `pre` pre-emptions before unbuffered channel sends and mutex acquisitions; 3 goroutines + enforcer",
+		Assumes:  []string{"threads are atomic between visible operations", "native replay by repetition (200 rounds) with a 3 s watchdog"},
+	})
 }
